@@ -2,7 +2,7 @@
     exchanging packets, the AEAD instantiated by the symbolic ideal AEAD (a ciphertext is
     the tuple it was sealed from; a corrupted ciphertext is [None]). *)
 From Coq Require Import List ZArith Bool String.
-From V Require Import Lib.Corr Lib.Hex Gen.Params PktProt.PktNum PktProt.KeyPhase.
+From V Require Import Lib.Corr Lib.Hex Gen.Params PktProt.PktNum PktProt.KeyPhase PktProt.KeyDerive.
 Import ListNotations.
 Open Scope Z_scope.
 
@@ -26,7 +26,16 @@ Inductive kop :=
 | KForge (from gen pn : Z).
     (* a misbehaving peer seals packet number pn with key generation gen of direction from *)
 
-Inductive case := KPCase (kui fkui limit : Z) (ops : list kop).
+Inductive case :=
+| KPCase (kui fkui limit : Z) (ops : list kop)
+| KuCase (v2 : bool) (secret : string) (hashLen : Z) (expand : list (string * string)) (next : string).
+    (* getNextTrafficSecret(secret) = next; [expand]: label -> HKDF-Expand-Label(secret, label, "", hashLen)
+       computed by the harness' own HKDF *)
+
+Definition expand_tab (secret : list Z) (hashLen : Z) (tab : list (string * string)) (s : list Z) (label : string) (len : Z) : list Z :=
+  if zeqb_list s secret && (len =? hashLen) then
+    match find (fun e => String.eqb (fst e) label) tab with Some e => hx (snd e) | None => [] end
+  else [].
 
 Inductive kobs :=
 | OSend (bit phase : Z)
@@ -87,6 +96,13 @@ Definition model_obs (c : case) : list kobs :=
   | KPCase kui fkui limit ops =>
     krun {| keyUpdateInterval := kui; firstKeyUpdateInterval := fkui |}
          {| epA := ua_new 1 0 limit; epB := ua_new 0 1 limit; pkts := [] |} ops
+  | KuCase _ _ _ _ _ => []
+  end.
+
+Definition model_next_secret (c : case) : list Z :=
+  match c with
+  | KuCase v2 secret hashLen tab _ => next_secret (expand_tab (hx secret) hashLen tab) v2 hashLen (hx secret)
+  | _ => []
   end.
 
 Definition obs_of (op : kop) : kobs :=
@@ -118,6 +134,7 @@ Fixpoint all2 {A} (f : A -> A -> bool) (a b : list A) : bool :=
 Definition check_case (c : case) : bool :=
   match c with
   | KPCase _ _ _ ops => all2 kobs_eqb (map obs_of ops) (model_obs c)
+  | KuCase _ _ _ _ next => negb (zeqb_list (hx next) []) && zeqb_list (model_next_secret c) (hx next)
   end.
 
 (** A concrete well-formed single-endpoint history used as non-vacuity witness in Props/C05.v:
